@@ -1,6 +1,7 @@
 INIT MCInit
 NEXT XNext
 CONSTANTS
+  CharsetClass <- MCCharsetClass
   DelimWithCRLF = TRUE
   PartPool <- MCPartPool
   EnvPool <- MCEnvPool
@@ -10,7 +11,7 @@ CONSTANTS
   MaxParts = 2
   MaxOps = 1
   MaxRetry = 1
-  ContentSel = {1, 6, 7, 10}
+  ContentSel = {1, 6, 10}
   ProfileSel = {1, 3}
   UseJson = TRUE
   BoundarySel = {1, 2}
